@@ -69,4 +69,23 @@ example : cut_tree_enter (σ := Nat) (T := Int) (fun c n pv => (c + 1, (pv.getD 
 example : cut_tree_leave (σ := Nat) (K := Int) (fun c n ks => (c + 1, (ks.foldl (fun a k => max a (k + 1)) 0, ks.isEmpty && n != 0))) 11 (rangeI 5) exPids 0
     = some (5, (([0, 1], [-1, 0]), [0, 1])) := by decide +kernel
 
+/-! ## `CutByFurcationOrder` -/
+
+/-- the translated `CutByFurcationOrder._enter` is the model's callback `Sub.orderEnter` on every node of a tree object -/
+theorem generated_orderEnter_eq_model (pids : List Int) (m j : Int) (pl : Option Int) (hj : 0 ≤ j ∧ j.toNat < pids.length) :
+    order_enter (rangeI pids.length) pids m j pl = some (orderEnter pids m j pl) :=
+  orderEnter_refines pids m j pl hj
+
+/-- the translated pipeline `cut_tree(x, enter=self._enter)` equals the model `Sub.cutByOrder` on every tree table -/
+theorem generated_cutByOrder_eq_model (pids : List Int) (r : Rose) (h : IsTree r pids) (m : Int) (F : Nat) :
+    cut_tree_enter (orderCallback pids m) (2 * r.size + F + 1) (rangeI pids.length) pids true =
+      (cutByOrder pids m).map (fun t => (true, ((Py.range (t.mapping.length : Int), t.newPid), t.mapping))) :=
+  cutByOrder_refines pids r h m F
+
+example : order_enter (rangeI 5) exPids 1 1 (some 0) = some (1, true) := by decide +kernel
+example : order_enter (rangeI 5) exPids 1 4 (some 0) = some (0, false) := by decide +kernel
+example : cut_tree_enter (orderCallback exPids 1) 11 (rangeI 5) exPids true = some (true, (([0, 1], [-1, 0]), [0, 4])) := by decide +kernel
+-- `CutByType.__call__` as translated (executed against the real transform by the op `gcuttype`)
+example : cut_by_type 11 (rangeI 5) exPids [1, 3, 2, 3, 3] 2 = some (([0, 1, 2], [-1, 0, 1]), [0, 1, 2]) := by decide +kernel
+
 end C06
